@@ -304,6 +304,10 @@ def _ref_inner(node: Any, vals: list[Fr | None]) -> tuple[Fr | None, Fr, bool]:
         if b is not None and b == 0:
             if db:
                 raise _Amb()
+            if mb > Fr(2) ** 50:
+                # an exact zero that only arises by cancelling operands beyond binary64's integer range: the float
+                # denominator need not be zero (it depends on the association which small term is absorbed)
+                raise _Amb()
             return None, ma, hasdiv
         if b is not None and abs(b) < Fr(1, 10**6) * mb:
             raise _Amb()
